@@ -16,6 +16,14 @@
  *                    -> the real (driver-built) environment block, but every lookup made
  *                       while an expansion is running is counted and its name recorded
  *
+ *   open / openat / fopen / stat / lstat / fstatat / statx / access / readlink / opendir
+ *                    -> while an expansion is running every path is counted and recorded,
+ *                       and SIM_FS_MAP may redirect it to a driver-written file or make it
+ *                       absent (file-system seam; /dev/urandom and friends are redirected to
+ *                       seeded bytes so that a direct read cannot bypass getrandom)
+ *   gethostname / uname / getuid / geteuid / sched_getaffinity / sysconf(_SC_NPROCESSORS_*)
+ *                    -> SIM_HOSTNAME / SIM_UID / SIM_NCPU; calls during expansions recorded
+ *
  * Reads made between sim_mark(1) and sim_mark(0) (the host brackets each expansion with
  * them) are counted separately: those are the "did the system under test look at this
  * source of nondeterminism" probes reported in the evidence file.
@@ -30,7 +38,15 @@
  * verdict, and the byte stream position is advanced with an atomic add.
  */
 #define _GNU_SOURCE
+#include <dirent.h>
+#include <dlfcn.h>
 #include <errno.h>
+#include <fcntl.h>
+#include <sched.h>
+#include <stdarg.h>
+#include <stdio.h>
+#include <sys/stat.h>
+#include <sys/utsname.h>
 #include <stdint.h>
 #include <stdlib.h>
 #include <string.h>
@@ -62,6 +78,17 @@ static uint64_t g_cnt[16];
 static char g_names[NAMES_CAP]; /* ';'-separated names of env vars looked up in expansions */
 static size_t g_names_len;
 
+/* file-system and identity seam */
+static char g_fs_names[NAMES_CAP]; /* ';'-separated paths / "call:<fn>" touched in expansions */
+static size_t g_fs_names_len;
+static uint64_t g_fs_cnt;          /* fs + identity calls made during expansions */
+#define FS_MAP_CAP 32
+static struct { char kind; const char *key; const char *target; } g_fs_map[FS_MAP_CAP];
+static int g_fs_map_n;
+static const char *g_hostname;
+static int g_have_uid, g_have_ncpu;
+static long g_uid, g_ncpu;
+
 static const char *raw_getenv(const char *name) {
     size_t n = strlen(name);
     if (!environ) return NULL;
@@ -85,6 +112,26 @@ static void init(void) {
         g_clock_step_ns = st ? strtoll(st, NULL, 10) : 1;
     }
     if ((s = raw_getenv("SIM_PID"))) { g_have_pid = 1; g_pid = strtol(s, NULL, 10); }
+    g_hostname = raw_getenv("SIM_HOSTNAME");
+    if ((s = raw_getenv("SIM_UID"))) { g_have_uid = 1; g_uid = strtol(s, NULL, 10); }
+    if ((s = raw_getenv("SIM_NCPU"))) { g_have_ncpu = 1; g_ncpu = strtol(s, NULL, 10); if (g_ncpu < 1) g_ncpu = 1; }
+    /* SIM_FS_MAP: lines "<kind>\t<key>\t<target>"; kind R = redirect to target, N = absent.
+     * key matches a path that equals it or ends with "/<key>". */
+    if ((s = raw_getenv("SIM_FS_MAP"))) {
+        char *copy = strdup(s);
+        char *save = NULL;
+        for (char *line = strtok_r(copy, "\n", &save); line && g_fs_map_n < FS_MAP_CAP; line = strtok_r(NULL, "\n", &save)) {
+            char *t1 = strchr(line, '\t');
+            if (!t1) continue;
+            *t1 = 0;
+            char *t2 = strchr(t1 + 1, '\t');
+            if (t2) *t2 = 0;
+            g_fs_map[g_fs_map_n].kind = line[0];
+            g_fs_map[g_fs_map_n].key = t1 + 1;
+            g_fs_map[g_fs_map_n].target = t2 ? t2 + 1 : "";
+            g_fs_map_n++;
+        }
+    }
 }
 
 static uint64_t splitmix64(uint64_t x) {
@@ -182,22 +229,29 @@ pid_t getpid(void) {
     return (pid_t)g_pid;
 }
 
-static void note_name(const char *name) {
+static void note_into(char *buf, size_t *len, const char *name) {
     size_t n = strlen(name);
+    if (n == 0 || n > 300) return;
     /* de-duplicate */
     size_t i = 0;
-    while (i < g_names_len) {
+    while (i < *len) {
         size_t j = i;
-        while (j < g_names_len && g_names[j] != ';') j++;
-        if (j - i == n && memcmp(g_names + i, name, n) == 0) return;
+        while (j < *len && buf[j] != ';') j++;
+        if (j - i == n && memcmp(buf + i, name, n) == 0) return;
         i = j + 1;
     }
-    if (g_names_len + n + 2 >= NAMES_CAP) return;
-    memcpy(g_names + g_names_len, name, n);
-    g_names_len += n;
-    g_names[g_names_len++] = ';';
-    g_names[g_names_len] = 0;
+    if (*len + n + 2 >= NAMES_CAP) return;
+    for (size_t k = 0; k < n; k++) {
+        char c = name[k];
+        buf[*len + k] = (c == ';' || c == ' ' || c == '\n' || c == '\\') ? '_' : c;
+    }
+    *len += n;
+    buf[(*len)++] = ';';
+    buf[*len] = 0;
 }
+
+static void note_name(const char *name) { note_into(g_names, &g_names_len, name); }
+static void note_fs(const char *name) { g_fs_cnt++; note_into(g_fs_names, &g_fs_names_len, name); }
 
 char *getenv(const char *name) {
     init();
@@ -209,6 +263,179 @@ char *getenv(const char *name) {
 char *secure_getenv(const char *name) {
     return getenv(name);
 }
+
+#ifndef SIM_MINIMAL
+/* ---- file-system seam ---- */
+
+/* 0 = untouched, 1 = redirected (*out set), -1 = absent */
+static int fs_lookup(const char *path, const char **out) {
+    if (!path || !g_in_expansion) return 0;
+    note_fs(path);
+    size_t pl = strlen(path);
+    for (int i = 0; i < g_fs_map_n; i++) {
+        const char *k = g_fs_map[i].key;
+        size_t kl = strlen(k);
+        int hit = strcmp(path, k) == 0 || (pl > kl && path[pl - kl - 1] == '/' && strcmp(path + pl - kl, k) == 0);
+        if (!hit) continue;
+        if (g_fs_map[i].kind == 'N') return -1;
+        *out = g_fs_map[i].target;
+        return 1;
+    }
+    return 0;
+}
+
+#define REAL(name) ({ static void *p_; if (!p_) p_ = dlsym(RTLD_NEXT, name); p_; })
+
+static int open_common(const char *fn, int dirfd, const char *path, int flags, mode_t mode) {
+    init();
+    const char *t = path;
+    int r = fs_lookup(path, &t);
+    if (r < 0) { errno = ENOENT; return -1; }
+    (void)fn;
+    return (int)syscall(SYS_openat, dirfd, t, flags, mode);
+}
+
+int open(const char *path, int flags, ...) {
+    mode_t mode = 0;
+    if (flags & (O_CREAT | O_TMPFILE)) { va_list ap; va_start(ap, flags); mode = va_arg(ap, mode_t); va_end(ap); }
+    return open_common("open", AT_FDCWD, path, flags, mode);
+}
+int open64(const char *path, int flags, ...) {
+    mode_t mode = 0;
+    if (flags & (O_CREAT | O_TMPFILE)) { va_list ap; va_start(ap, flags); mode = va_arg(ap, mode_t); va_end(ap); }
+    return open_common("open64", AT_FDCWD, path, flags | O_LARGEFILE, mode);
+}
+int openat(int dirfd, const char *path, int flags, ...) {
+    mode_t mode = 0;
+    if (flags & (O_CREAT | O_TMPFILE)) { va_list ap; va_start(ap, flags); mode = va_arg(ap, mode_t); va_end(ap); }
+    return open_common("openat", dirfd, path, flags, mode);
+}
+int openat64(int dirfd, const char *path, int flags, ...) {
+    mode_t mode = 0;
+    if (flags & (O_CREAT | O_TMPFILE)) { va_list ap; va_start(ap, flags); mode = va_arg(ap, mode_t); va_end(ap); }
+    return open_common("openat64", dirfd, path, flags | O_LARGEFILE, mode);
+}
+
+FILE *fopen(const char *path, const char *m) {
+    init();
+    const char *t = path;
+    int r = fs_lookup(path, &t);
+    if (r < 0) { errno = ENOENT; return NULL; }
+    FILE *(*real)(const char *, const char *) = REAL("fopen");
+    return real ? real(t, m) : NULL;
+}
+FILE *fopen64(const char *path, const char *m) {
+    init();
+    const char *t = path;
+    int r = fs_lookup(path, &t);
+    if (r < 0) { errno = ENOENT; return NULL; }
+    FILE *(*real)(const char *, const char *) = REAL("fopen64");
+    return real ? real(t, m) : NULL;
+}
+
+int stat(const char *path, struct stat *st) {
+    init();
+    const char *t = path;
+    if (fs_lookup(path, &t) < 0) { errno = ENOENT; return -1; }
+    return (int)syscall(SYS_newfstatat, AT_FDCWD, t, st, 0);
+}
+int lstat(const char *path, struct stat *st) {
+    init();
+    const char *t = path;
+    if (fs_lookup(path, &t) < 0) { errno = ENOENT; return -1; }
+    return (int)syscall(SYS_newfstatat, AT_FDCWD, t, st, AT_SYMLINK_NOFOLLOW);
+}
+int stat64(const char *path, struct stat64 *st) { return stat(path, (struct stat *)st); }
+int lstat64(const char *path, struct stat64 *st) { return lstat(path, (struct stat *)st); }
+int fstatat(int dirfd, const char *path, struct stat *st, int flags) {
+    init();
+    const char *t = path;
+    if (path && *path && fs_lookup(path, &t) < 0) { errno = ENOENT; return -1; }
+    return (int)syscall(SYS_newfstatat, dirfd, t, st, flags);
+}
+int fstatat64(int dirfd, const char *path, struct stat64 *st, int flags) { return fstatat(dirfd, path, (struct stat *)st, flags); }
+int statx(int dirfd, const char *path, int flags, unsigned int mask, struct statx *stx) {
+    init();
+    const char *t = path;
+    if (path && *path && fs_lookup(path, &t) < 0) { errno = ENOENT; return -1; }
+    return (int)syscall(SYS_statx, dirfd, t, flags, mask, stx);
+}
+int access(const char *path, int mode) {
+    init();
+    const char *t = path;
+    if (fs_lookup(path, &t) < 0) { errno = ENOENT; return -1; }
+    return (int)syscall(SYS_faccessat, AT_FDCWD, t, mode);
+}
+int faccessat(int dirfd, const char *path, int mode, int flags) {
+    init();
+    const char *t = path;
+    if (fs_lookup(path, &t) < 0) { errno = ENOENT; return -1; }
+    int (*real)(int, const char *, int, int) = REAL("faccessat");
+    return real ? real(dirfd, t, mode, flags) : -1;
+}
+ssize_t readlink(const char *path, char *buf, size_t n) {
+    init();
+    const char *t = path;
+    if (fs_lookup(path, &t) < 0) { errno = ENOENT; return -1; }
+    return syscall(SYS_readlinkat, AT_FDCWD, t, buf, n);
+}
+DIR *opendir(const char *path) {
+    init();
+    const char *t = path;
+    if (fs_lookup(path, &t) < 0) { errno = ENOENT; return NULL; }
+    DIR *(*real)(const char *) = REAL("opendir");
+    return real ? real(t) : NULL;
+}
+
+/* ---- identity seam ---- */
+
+int gethostname(char *name, size_t len) {
+    init();
+    if (g_in_expansion) note_fs("call:gethostname");
+    if (!g_hostname) { int (*real)(char *, size_t) = REAL("gethostname"); return real ? real(name, len) : -1; }
+    strncpy(name, g_hostname, len);
+    if (len) name[len - 1] = 0;
+    return 0;
+}
+int uname(struct utsname *u) {
+    init();
+    if (g_in_expansion) note_fs("call:uname");
+    int r = (int)syscall(SYS_uname, u);
+    if (r == 0 && g_hostname) { strncpy(u->nodename, g_hostname, sizeof u->nodename); u->nodename[sizeof u->nodename - 1] = 0; }
+    return r;
+}
+uid_t getuid(void) {
+    init();
+    if (g_in_expansion) note_fs("call:getuid");
+    return g_have_uid ? (uid_t)g_uid : (uid_t)syscall(SYS_getuid);
+}
+uid_t geteuid(void) {
+    init();
+    if (g_in_expansion) note_fs("call:geteuid");
+    return g_have_uid ? (uid_t)g_uid : (uid_t)syscall(SYS_geteuid);
+}
+int sched_getaffinity(pid_t pid, size_t sz, cpu_set_t *set) {
+    init();
+    if (g_in_expansion) note_fs("call:sched_getaffinity");
+    int r = (int)syscall(SYS_sched_getaffinity, pid, sz, set);
+    if (r < 0) return -1;
+    if (g_have_ncpu) {
+        memset(set, 0, sz);
+        for (long i = 0; i < g_ncpu && (size_t)i < sz * 8; i++) CPU_SET_S(i, sz, set);
+    }
+    return 0;
+}
+long sysconf(int name) {
+    init();
+    if (name == _SC_NPROCESSORS_ONLN || name == _SC_NPROCESSORS_CONF) {
+        if (g_in_expansion) note_fs("call:sysconf_nprocessors");
+        if (g_have_ncpu) return g_ncpu;
+    }
+    long (*real)(int) = REAL("sysconf");
+    return real ? real(name) : -1;
+}
+
+#endif /* SIM_MINIMAL */
 
 /* ---- interface for the host binary (looked up with dlsym(RTLD_DEFAULT, ...)) ---- */
 
@@ -223,5 +450,7 @@ int sim_counters(uint64_t *out, int n) {
 }
 
 const char *sim_env_names(void) { return g_names; }
+const char *sim_fs_names(void) { return g_fs_names; }
+uint64_t sim_fs_count(void) { return g_fs_cnt; }
 
 int sim_active(void) { init(); return 1 | (g_have_entropy << 1) | (g_have_clock << 2) | (g_have_pid << 3); }
